@@ -126,6 +126,23 @@ func init() {
 		Technique: "deductive verification: ParseInt/ParseUint == decimal value of the longest digit prefix with exact overflow behaviour (recursive spec digitsVal, lemmas by induction), LenInt/LenUint == mathematical digit count, AppendInt == prefix-preserving decimal expansion (quantified digit postcondition); VCs discharged by z3/cvc5",
 	})
 	registerProp(&PropSpec{
+		ID: "C19", Title: "BinaryReader/Writer round-trip and honour io contracts on every backend",
+		Sel: []Sel{
+			{Pattern: "parse.binaryReaderBytes.*", Levels: "SF"}, {Pattern: "parse.binaryReaderMmap.Bytes", Levels: "SF"}, {Pattern: "parse.binaryReaderMmap.Len", Levels: "SF"},
+			{Pattern: "parse.binaryReaderReader.*", Levels: "SF"}, {Pattern: "parse.binaryReaderSeeker.*", Levels: "SF"}, {Pattern: "parse.binaryReaderReaderAt.*", Levels: "SF"},
+			{Pattern: "parse.BinaryReader.*", Levels: "SF", Except: []string{"parse.BinaryReader.Clone", "parse.BinaryReader.Close", "parse.BinaryReader.InPageCache", "parse.BinaryReader.IBinaryReader"}},
+			{Pattern: "parse.BinaryWriter.*", Levels: "SF"}, {Pattern: "parse.BitmapReader.*", Levels: "SF"}, {Pattern: "parse.BitmapWriter.*", Levels: "SF"},
+			{Pattern: "parse.newBinaryReaderBytes", Levels: "S"}, {Pattern: "parse.NewBinaryReaderBytes", Levels: "S"}, {Pattern: "parse.NewBinaryReader", Levels: "S"},
+			{Pattern: "parse.NewBinaryWriter", Levels: "S"}, {Pattern: "parse.NewBitmapReader", Levels: "S"}, {Pattern: "parse.NewBitmapWriter", Levels: "S"},
+		},
+		NotDecided: []string{
+			"the io.Reader / io.ReadSeeker / io.ReaderAt back ends against the behavioural contract of IBinaryReader.Bytes (their memory safety is proved; their functional clauses are assumed relative to io contracts)",
+			"WriteUint16/32/64 byte layout (delegated to encoding/binary's AppendByteOrder, an external interface); the 8/24-bit writers and all readers are proved",
+			"the operating system (os.File, syscall.Mmap) and the file/mmap constructors",
+		},
+		Technique: "deductive verification: behavioural interface contract for IBinaryReader.Bytes over a ghost content view (proved for the memory and mmap back ends), io.Seeker semantics of Seek, position bookkeeping and sticky first error, fixed-width decoding == sum of content bytes, bit-exact BitmapReader/BitmapWriter contracts; VCs discharged by z3/cvc5",
+	})
+	registerProp(&PropSpec{
 		ID: "C10", Title: "JSON parser accepts every valid document and reproduces it",
 		Sel: []Sel{{Pattern: "json.Parser.*", Levels: "STF"}, {Pattern: "json.NewParser", Levels: "S"}},
 		NotDecided: []string{"every document accepted by encoding/json is accepted (needs induction over the JSON grammar against the iterative state machine)"},
@@ -172,6 +189,9 @@ func (E *Engine) Select(p *PropSpec) []FuncLevel {
 			for _, lc := range s.Levels {
 				l := facetLevel[string(lc)]
 				if !have[l] {
+					continue
+				}
+				if ct != nil && strings.Contains(ct.AssumeFacets, string(lc)) {
 					continue
 				}
 				key := n + "@" + string(lc)
